@@ -27,6 +27,10 @@ type Analysis struct {
 	// the call as opaque (killing what it may write).
 	NoInline func(callee *ssa.Function) bool
 
+	// AtRunDefers is true while Hook is invoked for a deferred call that is being run at a
+	// RunDefers instruction (the hook also sees the Defer instruction itself, earlier, with this false).
+	AtRunDefers bool
+
 	MaxDepth int
 	Obs      map[string]*Observation
 	Notes    map[string]bool
@@ -594,6 +598,14 @@ func (a *Analysis) transfer(f *Frame, instr ssa.Instruction, st State) State {
 			}
 		}
 		for i := len(ds) - 1; i >= 0; i-- {
+			if a.Hook != nil {
+				a.AtRunDefers = true
+				st = a.Hook(a, f, ds[i], st)
+				a.AtRunDefers = false
+				if st.IsEmpty() {
+					return st
+				}
+			}
 			st, _ = a.call(f, ds[i], ds[i].Common(), st)
 			if a.PostCall != nil && !st.IsEmpty() {
 				st = a.PostCall(a, f, ds[i], st)
